@@ -36,23 +36,37 @@ def check_obligation(pc: list, goal: Any, timeout_ms: int, second: bool = True, 
     s.add(z3.Not(goal))
 
     def job() -> Any:
-        s.set("timeout", timeout_ms)
-        r = s.check()
+        # portfolio: the legacy simplex core (arith.solver=2) decides div/mod-by-constant goals over wide integers that the
+        # default core of z3 5.x leaves unknown; the default core is tried next (better on nonlinear / quantified goals)
+        s2 = z3.Solver()
+        s2.set("smt.arith.solver", 2)
+        s2.set("timeout", max(1000, min(4000, timeout_ms // 3)))
+        for c in s.assertions():
+            s2.add(c)
+        r = s2.check()
         if r == z3.unsat:
             return ("unsat", None, "")
         if r == z3.sat:
-            m = s.model()
+            s_use = s2
+        else:
+            s.set("timeout", timeout_ms)
+            r = s.check()
+            s_use = s
+        if r == z3.unsat:
+            return ("unsat", None, "")
+        if r == z3.sat:
+            m = s_use.model()
             if cap_hint:  # prefer a small model: re-solve with caps on the length atoms
                 for cap in (64, 1024):
-                    s.push()
+                    s_use.push()
                     for t in cap_hint:
-                        s.add(t <= cap)
-                    s.set("timeout", min(timeout_ms, 5000))
-                    if s.check() == z3.sat:
-                        m = s.model()
-                        s.pop()
+                        s_use.add(t <= cap)
+                    s_use.set("timeout", min(timeout_ms, 5000))
+                    if s_use.check() == z3.sat:
+                        m = s_use.model()
+                        s_use.pop()
                         break
-                    s.pop()
+                    s_use.pop()
             info = None
             if on_model is not None:
                 try:
@@ -62,7 +76,7 @@ def check_obligation(pc: list, goal: Any, timeout_ms: int, second: bool = True, 
             return ("sat", info, "")
         return ("unknown", None, s.reason_unknown())
 
-    st, out = run_hard(job, timeout_ms / 1000.0 * 1.5 + 8.0)
+    st, out = run_hard(job, timeout_ms / 1000.0 * 1.5 + 12.0)
     backend = "z3-" + z3.get_version_string()
     if st == "ok":
         status, info, reason = out
